@@ -48,7 +48,7 @@ def rule(tier):
 def floors(tier):
     return {"evaluations": 3000 if tier == "quick" else 60000, "distinct": 3000 if tier == "quick" else 50000,
             "counters": {"contract:container_errors": 3000, "outcome:library_error": 500, "outcome:document": 300,
-                         "fault:member": 1500, "fault:truncate": 150, "fault:bitflip": 150, "fault:path": 5, "fault:zipfield": 1500, "fault:plist": 8, "fault:package": 20}}
+                         "fault:member": 1500, "fault:truncate": 150, "fault:bitflip": 150, "fault:path": 20, "fault:zipfield": 1500, "fault:plist": 8, "fault:package": 20}}
 
 
 def plan(tier, seed):
@@ -492,10 +492,28 @@ def run_path(spec, rec):
             if n.endswith(".plist"):
                 z.writestr(n, zin.read(n))
     cases.append(("zip-only-plists", p))
-    for name, path in cases:
-        case = {"part": "path", "kind": name}
-        classify_open(path, rec, case, "path")
-        rec.case(("path", name))
+    # names a shell or an office suite produces: a leading tilde (no such user; lock and backup files), blanks, non-ASCII, a
+    # trailing dot, a very long name - given as relative paths from the scratch directory
+    odd = ["~no-such-user-vf/x.numbers", "~$budget.numbers", "~budget.numbers", "~", "~.numbers", " lead.numbers", "trail .numbers", "d\u00e9j\u00e0 vu \u8868.numbers",
+           "dots..numbers", ".numbers", "x" * 200 + ".numbers", "a/../~b.numbers", "%7Eescaped.numbers", "$HOME.numbers", "*.numbers"]
+    cwd = os.getcwd()
+    try:
+        os.chdir(scratch)
+        for nm in odd:
+            exists = False
+            if "/" not in nm:
+                try:
+                    shutil.copy(good, nm)
+                    exists = True
+                except OSError:
+                    pass
+            cases.append(("odd-name:" + nm[:24] + (":present" if exists else ":absent"), nm))
+        for name, path in cases:
+            case = {"part": "path", "kind": name}
+            classify_open(path, rec, case, "path")
+            rec.case(("path", name))
+    finally:
+        os.chdir(cwd)
     rec.sample({"path_faults": [c[0] for c in cases]})
 
 
